@@ -370,11 +370,18 @@ func init() {
 		Level: "exploration",
 		Rule: "one case = one mapping table built by a random add/remove history (11 overlapping string prefixes incl. nested ones, prefixes under $HOME, with spaces and non-ASCII; 3 regexp mappings; the initial home and cwd entries stay) x the two privacy flags, then 12 queries (under a prefix, the prefix itself, near misses like /srvx, regexp territory, outside everything, relative/empty/very long/.. paths, below cwd), " +
 			"each query asked 32 times through Safety and SafetyFiles because the mapping table is a Go map with randomised iteration order - the evidence counts queries whose output depends on that order. Oracle: no panic; with the privacy flag a path component-wise under a protected prefix is never reported equal to or starting with that prefix and starts with an applicable short form (or is a relative path to the same file); " +
-			"regexp-protected prefixes likewise when the regexp flag is on; a path that no mapping string-prefixes and no regexp matches is returned unchanged or as a strictly shorter relative path resolving to the same file. The caller field of emitted records is checked with the harness's own source directory registered. non-trivial = judged query; distinct = by (path, table, flags)",
+			"regexp-protected prefixes likewise when the regexp flag is on; a path that no mapping string-prefixes and no regexp matches is returned unchanged or as a strictly shorter relative path resolving to the same file. The caller field of emitted records is checked with the harness's own source directory registered. Keys written with a trailing separator cover what lies below them. " +
+			"Sub-workload generated: 54 cells {3 functions below //line directives with absolute file names} x {3 formats} x {3 short forms} x {root, child}, in the ordinary build, under go test and in a -trimpath build: neither the caller field nor Safety of the same name reports the registered directory. non-trivial = judged query; distinct = by (path, table, flags)",
 		Assumptions: []string{"replacements are non-empty and not absolute paths", "ResetKnownPathMapping and removal of the home / cwd entries are not generated", "paths that merely string-prefix-match a key without lying under it (/srvx for /srv) are unconstrained"},
-		Floors:      map[string]int64{"queries": 10000, "caller_fields_checked": 20},
+		Floors:      map[string]int64{"queries": 10000, "caller_fields_checked": 20, "caller_fields_of_generated_code_checked": 100},
+		Variants:    []string{"trimpath"},
 		Jobs: func(tier string, seed int64) []Job {
 			js := chunk("paths", "prod", pick(tier, 8000, 400000), pick(tier, 500, 12500), Job{Timeout: 30 * time.Minute})
+			// records from below //line directives with absolute file names (generated code), in the ordinary build and in a
+			// -trimpath build of the workload
+			js = append(js, Job{Sub: "generated", Mode: "prod", From: 0, To: 54, Timeout: 10 * time.Minute},
+				Job{Sub: "generated", Mode: "prod", From: 0, To: 54, Variant: "trimpath", Args: []string{"-x", "build=trimpath"}, Timeout: 10 * time.Minute},
+				Job{Sub: "generated", Mode: "test", From: 0, To: 54, Timeout: 10 * time.Minute})
 			// processes whose $HOME is reached through a symbolic link: paths are spelled the way $HOME is spelled
 			real := filepath.Join(buildDir, "home-real")
 			link := filepath.Join(buildDir, "home-link")
